@@ -1,6 +1,8 @@
 import Driver.Trace
 import Crusta.Model.Cli
 import Crusta.Model.Sat
+import Crusta.Model.CliOut
+import Driver.IO
 
 /-!
 Driver side of the command-line correspondence (`cli` family): the harness runs the real
@@ -66,7 +68,10 @@ def runCli (lines : List String) : List String := Id.run do
     for i in instancesOf w.trace.reverse do
       out := s!"inst {escapeNl i}" :: out
     match oc with
-    | .done a => out := renderAns store a :: out
+    | .done a =>
+      out := renderAns store a :: out
+      -- the bytes the model prints on stdout (Model/CliOut.lean; the subject of `cli_stdout_on_readable_file`)
+      out := s!"stdout {hexStr (stdoutIccma a)}" :: out
     | .abort => out := "panic abort" :: out
     | .crashed m => out := s!"panic crash {m}" :: out
     | .starved => out := "T-STARVED" :: out
